@@ -69,42 +69,51 @@ def make_case(ctx, g):
         flags.add("bundles")
     if any(c.get_default_namespace() is not None for c in [doc] + list(doc.bundles)):
         flags.add("default-ns")
-    # writer channel
-    text = w.enc_json(d)
-    # reader channel
-    if text is not None:
-        h, err = w.dec_json(text)
-        if h is not None:
-            w.obs(h)
-    # end-to-end for every option set
-    bad_names = None
-    want = proto.strict_doc(doc)
-    for opts in (OPTION_SETS if g.chance(0.4) else [g.choice(OPTION_SETS)]):
-        ctx.count("opts:" + json.dumps(opts, sort_keys=True))
-        try:
-            t = doc.serialize(format="json", **opts)
-            back = ProvDocument.deserialize(content=t, format="json")
-            got = proto.strict_doc(back)
-            problem = None if got == want else "reloaded document differs"
-        except Exception as e:  # noqa
-            problem = "round trip raised %s: %s" % (type(e).__name__, str(e)[:120])
-            got = None
-        if problem:
-            if bad_names is None:
-                bad_names = unresolvable(doc)
-            sig = "C01:name-not-resolvable-in-scope" if bad_names else None
-            detail = ""
-            if got is not None:
-                for k in sorted(set(want) | set(got)):
-                    a, b_ = want.get(k), got.get(k)
-                    if a != b_:
-                        detail = " bundle %r: missing %s / unexpected %s" % (
-                            k, [x for x in (a or []) if x not in (b_ or [])][:1], [x for x in (b_ or []) if x not in (a or [])][:1])
-                        break
-            fails.append(Failure("oracle", sig, "json %s: %s%s%s" % (opts, problem, detail[:700],
-                                                                     (" [unresolvable: %s]" % (bad_names[:2],)) if bad_names else ""),
-                                 {"ops": list(w.ops), "opts": opts}))
-            break
+    def exercise():
+        nonlocal text
+        # writer channel
+        text = w.enc_json(d)
+        # reader channel
+        if text is not None:
+            h, err = w.dec_json(text)
+            if h is not None:
+                w.obs(h)
+        # end-to-end for every option set
+        bad_names = None
+        want = proto.strict_doc(doc)
+        for opts in (OPTION_SETS if g.chance(0.4) else [g.choice(OPTION_SETS)]):
+            ctx.count("opts:" + json.dumps(opts, sort_keys=True))
+            try:
+                t = doc.serialize(format="json", **opts)
+                back = ProvDocument.deserialize(content=t, format="json")
+                got = proto.strict_doc(back)
+                problem = None if got == want else "reloaded document differs"
+            except Exception as e:  # noqa
+                problem = "round trip raised %s: %s" % (type(e).__name__, str(e)[:120])
+                got = None
+            if problem:
+                if bad_names is None:
+                    bad_names = unresolvable(doc)
+                sig = "C01:name-not-resolvable-in-scope" if bad_names else None
+                detail = ""
+                if got is not None:
+                    for k in sorted(set(want) | set(got)):
+                        a, b_ = want.get(k), got.get(k)
+                        if a != b_:
+                            detail = " bundle %r: missing %s / unexpected %s" % (
+                                k, [x for x in (a or []) if x not in (b_ or [])][:1], [x for x in (b_ or []) if x not in (a or [])][:1])
+                            break
+                fails.append(Failure("oracle", sig, "json %s: %s%s%s" % (opts, problem, detail[:700],
+                                                                         (" [unresolvable: %s]" % (bad_names[:2],)) if bad_names else ""),
+                                     {"ops": list(w.ops), "opts": opts}))
+                break
+
+    text = None
+    exercise()
+    if not fails and g.chance(0.25) and b.mutate_in_place([d]):
+        # second chapter: the document is changed in place and written / read again
+        flags.add("changed-after-first-export")
+        exercise()
     ctx.evaluations += 1
     for f in flags:
         ctx.count(f)
